@@ -1,5 +1,6 @@
 from collections.abc import Mapping
 
+from .exceptions import PestGrammarSyntaxError
 from .expression import Expression
 from .expression import RegexExpression
 from .expressions.choice import Choice
@@ -64,4 +65,7 @@ def parse(
     Returns:
         A (rules, grammar doc) tuple.
     """
-    return Parser(tokenize(grammar), builtins).parse()
+    try:
+        return Parser(tokenize(grammar), builtins, grammar).parse()
+    except RecursionError as err:
+        raise PestGrammarSyntaxError("the grammar is nested too deeply") from err
